@@ -186,6 +186,19 @@ def gen_case(rng, params, idx):
                                                     for i in range(npos)], "kw": [], "prio": 0, "kind": "leaf"}
                            for j in range(npos)]
         spec["classes_as_arguments"] = True
+        if rng.random() < 0.5:
+            # a keyword-only type[...] parameter that every method requires, classes passed through it; the addition is
+            # a method *without* that keyword (it cannot apply to a call that passes it, but it makes the keyword
+            # optional for the entry point)
+            kcls = rng.choice(names + ["int", "str"])
+            for m in methods:
+                m["kw"] = [{"n": "k", "t": rng.choice([["Ty", kcls], ["Ty", "object"], ["Ty", kcls]]), "req": True}]
+            for c in spec["calls"]:
+                c["kw"] = {"k": ["c", rng.choice([kcls, kcls, "object", names[-1]])]}
+            extras = [e for e in extras if e["mid"] >= 95]
+            for e in extras:
+                e["kw"] = []
+            spec["keyword_type_parameter"] = True
     spec["extras"] = extras
     spec["perm_seeds"] = [rng.randrange(1 << 30) for _ in range(4)]
     return spec
